@@ -7,7 +7,8 @@ META = {
                   "node enumeration: C15; bidib_set_track_output_state_all: C09; bidib_communication_works: start path C16"],
     "bounds": "order: the whole bidib_send_sys_reset step sequence; features: 2 boards (2 + 1 features, arbitrary numbers/values, "
               "each connected or not, boards answering with the requested or another value); initial values: one initial point, "
-              "signal, peripheral and train function on the builder world with arbitrary configuration values and connectivity",
+              "signal, peripheral and train function on the builder world with arbitrary configuration values and connectivity, "
+              "one or two track outputs (the second, on board b2, first in the list and connected or not)",
     "stubs": ["order: callees of bidib_send_sys_reset -> recorders", "bidib_node_try_send -> capture", "simulated bus for FEATURE answers",
               "usleep no-op"],
     "outside": ["more boards / initial values (loops over longer lists)", "a board that never answers a feature setting (the library "
@@ -34,4 +35,8 @@ def queries():
               unwind=6, unwindset=UW, instr=R),
             ] + [Q("initial-values-bits%d_%d" % (a, b), "C20_startup.c", ST + TX + LL + HL,
                    defs={"MODE": 2, "VERIF_GARRAY_CAP": 9, "SB_FBIT0": a, "SB_FBIT1": b}, unwind=6, unwindset=UW,
-                   tier="quick" if (a, b) in ((4, 8), (0, 4)) else "thorough") for a, b in ((4, 8), (0, 4), (8, 11), (12, 15), (16, 23), (24, 31), (3, 17))]
+                   tier="quick" if (a, b) in ((0, 4),) else "thorough") for a, b in ((4, 8), (0, 4), (8, 11), (12, 15), (16, 23), (24, 31), (3, 17))
+            ] + [Q("initial-values-two-outputs-bits%d_%d" % (a, b), "C20_startup.c", ST + TX + LL + HL,
+                   defs={"MODE": 2, "VERIF_GARRAY_CAP": 9, "SB_FBIT0": a, "SB_FBIT1": b, "SB_TRACK_OUTPUT2": 1}, unwind=6, unwindset=UW,
+                   tier="quick" if (a, b) == (4, 8) else "thorough", note="second track output (board b2, connected or not) listed before b1's")
+                 for a, b in ((4, 8), (3, 17))]
